@@ -216,6 +216,9 @@ func newE2EEnv(o fingerproxy.VerifOptions) *e2eEnv {
 	e.accepted = &countingListener{Listener: ln}
 	e.ln = e.accepted
 	e.addr = ln.Addr().String()
+	if e2eCancelBeforeServe {
+		e.cancel() // early cancellation: before Serve is even called
+	}
 	go func() { e.served <- st.Server.Serve(e.ln) }()
 	go st.CertWatcher.Start(e.ctx)
 	return e
